@@ -113,10 +113,27 @@ func TestC15Inputs(t *testing.T) {
 			w.placeHead(t, base)
 		}
 		in2 := w.inputs()
+		if rapid.Bool().Draw(t, "sameobject") {
+			in2 = in // a node keeps one inputs object while EC's head moves: nothing may be remembered from the old view
+		}
 		for i, b := range before {
 			com, err := in2.GetCommittee(ctx, i)
 			if err != nil || fmt.Sprintf("%x|%v", com.Beacon, com.PowerTable.Entries) != b {
 				vev.Fail(t, c15, "C15/committee/depends-on-unfinalized-state", "GetCommittee(%d) changed when only the EC head (epoch %d -> %d) and clock changed (err=%v)", i, oldHead.E, w.ec.Head.E, err)
+			}
+		}
+		if !deep {
+			// the proposal under the new head and clock, through the same or a fresh object
+			want2, wantSD2, shape2 := w.expectedProposal(inst)
+			sd2, chain2, err := in2.GetProposal(ctx, inst)
+			if err != nil {
+				vev.Fail(t, c15, "C15/proposal/error", "GetProposal(%d) after the EC head moved failed: %v; world %v", inst, err, describeWorld(w))
+			}
+			if !sameChain(chain2, want2) {
+				vev.Fail(t, c15, "C15/proposal/chain", "GetProposal(%d) after the EC head moved (epoch %d -> %d, same inputs object: %v): got %d tipsets ending at epoch %d, model expects %d ending at epoch %d (shape %s); world %v", inst, oldHead.E, w.ec.Head.E, in2 == in, chain2.Len(), chain2.Head().Epoch, want2.Len(), want2.Head().Epoch, shape2, describeWorld(w))
+			}
+			if sd2.PowerTable != wantSD2.PowerTable {
+				vev.Fail(t, c15, "C15/proposal/supplemental", "GetProposal(%d) after the EC head moved: supplemental data does not commit to the committee of instance %d", inst, inst+1)
 			}
 		}
 		nt := (k >= 1 && shape != "extends") || chain.Len() != 1 || inst >= w.m.InitialInstance+w.m.CommitteeLookback
